@@ -120,8 +120,28 @@ struct Out { w: CaseWriter, jsonl: std::fs::File, op_hist: BTreeMap<String, u64>
 
 #[allow(clippy::too_many_arguments)]
 fn emit_cases(sys: &Sys, it: &mut Interner, before: &Snapshot, after: &Snapshot, op_desc: &Value, republish: Option<bool>, hist: u64, out: &Mutex<Out>) {
-    let _ = sys;
     let now = chrono::Utc::now().timestamp();
+    // C03: a revocation request that the parent answered positively (the child stored KeyRollFinish) must
+    // have removed the certificate of the old key at the parent.
+    for h in CAS {
+        let (Some(Some(pre)), Some(Some(post))) = (before.ca.get(h), after.ca.get(h)) else { continue };
+        for v in pre["version"].as_u64().unwrap_or(0)..post["version"].as_u64().unwrap_or(0) {
+            let Some(sc) = stored_command(sys, h, v) else { continue };
+            if sc["details"]["type"] != "key_roll_finish" || sc["effect"]["events"].as_array().map(|a| a.is_empty()).unwrap_or(true) { continue }
+            let rcn = sc["details"]["resource_class_name"].as_str().unwrap_or("?");
+            let Some(old_key) = pre["resources"][rcn]["key_state"]["roll_old"][1]["key"]["key_id"].as_str() else { continue };
+            let p = parent_of(h);
+            if let Some(Some(parent_post)) = after.ca.get(p) {
+                let still = parent_post["resources"].as_object().map(|m| m.values().any(|rc| rc["certificates"]["issued"].get(old_key).is_some() || rc["certificates"]["suspended"].get(old_key).is_some())).unwrap_or(false);
+                if still {
+                    let mut o = out.lock().unwrap();
+                    let idx = o.w.total;
+                    o.impl_failures.push(json!({"index": idx, "history": hist, "ca": h, "op": op_desc, "class": {"revocation_ineffective": true},
+                        "what": format!("child '{h}' finished its key roll (parent '{p}' answered the revocation of key {old_key} positively) but the parent still holds a certificate for that key")}));
+                }
+            }
+        }
+    }
     for h in CAS {
         let (Some(Some(pre)), Some(Some(post))) = (before.ca.get(h), after.ca.get(h)) else { continue };
         let v0 = pre["version"].as_u64().unwrap_or(0);
@@ -193,12 +213,29 @@ fn run_history(args: &Args, hist: u64, seed: u64, n_ops: u64, out: &Mutex<Out>) 
     let mut it = Interner::default();
     sys.bootstrap().expect("bootstrap");
     // hierarchy; every step is observed like any other operation
-    let setup = setup_steps();
+    let setup = setup_steps_with(hist % 2 == 1);
     for (i, step) in setup.iter().enumerate() {
         let before = snapshot(&sys);
         if let Err(e) = step(&sys) { eprintln!("history {hist}: setup step {i} failed: {e}"); }
         let after = snapshot(&sys);
         emit_cases(&sys, &mut it, &before, &after, &json!({"op": "setup", "step": i}), None, hist, out);
+    }
+    // scripted prelude in a quarter of the histories: a complete key roll of the leaf "d" (whose class name
+    // is mapped in every second history), so that the revocation path is always exercised
+    if hist % 4 == 1 || hist % 4 == 2 {
+        let steps: Vec<(&str, Box<dyn Fn(&Sys) -> Result<(), String>>)> = vec![
+            ("keyroll_init", Box::new(|s| s.keyroll_init("d").map_err(|e| e.to_string()))),
+            ("sync_parent", Box::new(|s| s.sync_parent("d", "a").map(|_| ()).map_err(|e| e.to_string()))),
+            ("sync_parent", Box::new(|s| s.sync_parent("d", "a").map(|_| ()).map_err(|e| e.to_string()))),
+            ("keyroll_activate", Box::new(|s| s.keyroll_activate("d").map_err(|e| e.to_string()))),
+            ("sync_parent", Box::new(|s| s.sync_parent("d", "a").map(|_| ()).map_err(|e| e.to_string()))),
+        ];
+        for (name, step) in steps {
+            let before = snapshot(&sys);
+            let _ = step(&sys);
+            let after = snapshot(&sys);
+            emit_cases(&sys, &mut it, &before, &after, &json!({"op": name, "ca": "d", "scripted": true}), None, hist, out);
+        }
     }
     let mut st = OpState::new();
     for _ in 0..n_ops {
